@@ -364,48 +364,59 @@ def main (args : List String) : IO UInt32 := do
           emit "upd" hname nb ([.new] ++ ops ++ [.upd znb]) ([.new] ++ ops ++ [.upd zb]) s!"[.new, {src}, .upd b0]"
     return 0
   | "e2eany" :: rest => do
-    -- material for the from-any-state theorems: `update_frame` alone, per combination of the
-    -- control-relevant driver fields, from a scrambled addressing state
+    -- material for the from-any-state theorems: every full-frame entry point alone, per combination
+    -- of the control-relevant driver fields, from a scrambled addressing state
     let f : Feat := { v2 := rest.contains "v2", alt := rest.contains "alt" }
     for p in panels f do
       let n := (p.width + 7) / 8 * p.height
       let nb := if p.name == "epd7in5b_v2" then 2 * n else if Spec.isOct p.name then p.width / 2 * p.height else n
-      let tg := Spec.fullTargets p.name "upd"
-      if tg.isEmpty then continue
-      let za : Bytes := List.replicate nb 0
-      let zb : Bytes := (List.range nb).map fun i => posByte i
-      let combos : List (Refresh × Bool × Bool) := [.full, .quick].flatMap fun r => [false, true].flatMap fun o => [false, true].map fun pf => (r, o, pf)
-      let blocksFor (d : DState) (b : Bytes) : List Blk := blocksOf ((p.prog d (.upd b)).getD [.panic])
-      let all := combos.map fun (r, o, pf) => blocksFor { p.init with refresh := r, isOn := o, partialFlag := pf } za
-      let dindep := all.all (· == all.headD [])
-      for (r, o, pf) in combos do
-        let d : DState := { p.init with refresh := r, isOn := o, partialFlag := pf }
-        let blocksA := blocksFor d za
-        let blocksB := blocksFor d zb
-        let np := ((p.prog d (.upd za)).getD [.panic]).all (fun a => !a.isPanic)
-        let holes := ((List.range blocksA.length).filter fun i => blocksA[i]? != blocksB[i]?)
-        let srcOf (ps : Bytes) : String :=
-          let encs : List (String × Spec.Enc) := [("id", .id), ("inv", .inv), ("bpp2", .bpp2), ("bpp4", .bpp4), ("lo", .lo), ("hi", .hi)]
-          match (encs.filterMap fun (en, e) => if ps == e.apply zb then some s!"0/{en}" else none) with
-          | x :: _ => x
-          | [] => "?"
-        let desc (i : Nat) : String := match blocksA[i]?, blocksB[i]? with
-          | some (.c c ps), some (.c _ psB) => s!"{i}:{hexByte c}:{ps.length}:{srcOf psB}"
-          | _, _ => s!"{i}:??:0:?"
-        let comp (i : Nat) : String := match p.ctrl with
-          | .ssd s0 =>
-            let a0 : Ssd.Addr := ⟨s0.xPix, s0.stride, s0.rows, 3, 1, 2, 3, 4, 1, 3, false⟩
-            let a := (blocksA.take i).foldl Ssd.feedA a0
-            let len := (blocksA[i]?.map fun b => match b with | .c _ ps => ps.length | _ => 0).getD 0
-            s!"{a.xs},{a.xe},{a.ys},{a.ye},{a.stride},{a.rows},{Ssd.readyA a len},{s0.xPix}"
-          | .uc u0 =>
-            let f1 := (blocksA.take i).foldl Uc.feedF ⟨false, false, u0.has14⟩
-            let f2 := (blocksA.take i).foldl Uc.feedF ⟨false, true, u0.has14⟩
-            s!"{u0.p1.size},{u0.p2.size},{Uc.readyF f1},{Uc.readyF f2},{u0.has14}"
-        let fam := match p.family with | .ssd => "ssd" | .uc => "uc" | .acep => "acep"
-        let tgs := ";".intercalate (tg.map fun t => s!"{t.plane},{reprStr t.enc},{t.arg}")
-        let ds := s!"{if r == .full then "full" else "quick"},{o},{pf}"
-        IO.println s!"A {p.name} {fam} upd d={ds} dindep={dindep} len={nb} nblocks={blocksA.length} sameLen={blocksA.length == blocksB.length} nopanic={np} holes={",".intercalate (holes.map desc)} comp={"|".intercalate (holes.map comp)} targets={tgs}"
+      let opsS : List (String × Nat × (Bytes → Bytes → Op) × String) := [
+        ("upd", nb, fun b _ => .upd b, ".upd b0"), ("updisp", nb, fun b _ => .updisp b, ".updisp b0"),
+        ("old", n, fun b _ => .old b, ".old b0"), ("newf", n, fun b _ => .newf b, ".newf b0"),
+        ("updispnew", n, fun b _ => .updispnew b, ".updispnew b0"), ("color", n, fun b c => .color b c, ".color b0 b1"),
+        ("achro", n, fun b _ => .achro b, ".achro b0"), ("chro", n, fun b _ => .chro b, ".chro b0"),
+        ("base", n, fun b _ => .base b, ".base b0")]
+      for (name, len, mk, src) in opsS do
+        let tg := Spec.fullTargets p.name name
+        if tg.isEmpty then continue
+        match p.prog p.init (mk [] []) with
+        | none => continue
+        | some [Act.panic] => continue
+        | some _ => pure ()
+        let za : Bytes := List.replicate len 0
+        let zb : Bytes := (List.range len).map fun i => posByte i
+        let zc : Bytes := (List.range len).map fun i => posByte (i + 7)
+        let combos : List (Refresh × Bool × Bool) := [.full, .quick].flatMap fun r => [false, true].flatMap fun o => [false, true].map fun pf => (r, o, pf)
+        let blocksFor (d : DState) (b c : Bytes) : List Blk := blocksOf ((p.prog d (mk b c)).getD [.panic])
+        for (r, o, pf) in combos do
+          let d : DState := { p.init with refresh := r, isOn := o, partialFlag := pf }
+          let blocksA := blocksFor d za za
+          let blocksB := blocksFor d zb zc
+          let np := ((p.prog d (mk za za)).getD [.panic]).all (fun a => !a.isPanic)
+          let holes := ((List.range blocksA.length).filter fun i => blocksA[i]? != blocksB[i]?)
+          let srcOf (ps : Bytes) : String :=
+            let encs : List (String × Spec.Enc) := [("id", .id), ("inv", .inv), ("bpp2", .bpp2), ("bpp4", .bpp4), ("lo", .lo), ("hi", .hi)]
+            match (encs.flatMap fun (en, e) => [(0, zb), (1, zc)].filterMap fun (ai, z) =>
+                if ps == e.apply z then some s!"{ai}/{en}" else none) with
+            | x :: _ => x
+            | [] => "?"
+          let desc (i : Nat) : String := match blocksA[i]?, blocksB[i]? with
+            | some (.c c ps), some (.c _ psB) => s!"{i}:{hexByte c}:{ps.length}:{srcOf psB}"
+            | _, _ => s!"{i}:??:0:?"
+          let comp (i : Nat) : String := match p.ctrl with
+            | .ssd s0 =>
+              let a0 : Ssd.Addr := ⟨s0.xPix, s0.stride, s0.rows, 3, 1, 2, 3, 4, 1, 3, false⟩
+              let a := (blocksA.take i).foldl Ssd.feedA a0
+              let len := (blocksA[i]?.map fun b => match b with | .c _ ps => ps.length | _ => 0).getD 0
+              s!"{a.xs},{a.xe},{a.ys},{a.ye},{a.stride},{a.rows},{Ssd.readyA a len},{s0.xPix}"
+            | .uc u0 =>
+              let f1 := (blocksA.take i).foldl Uc.feedF ⟨false, false, u0.has14⟩
+              let f2 := (blocksA.take i).foldl Uc.feedF ⟨false, true, u0.has14⟩
+              s!"{u0.p1.size},{u0.p2.size},{Uc.readyF f1},{Uc.readyF f2},{u0.has14}"
+          let fam := match p.family with | .ssd => "ssd" | .uc => "uc" | .acep => "acep"
+          let tgs := ";".intercalate (tg.map fun t => s!"{t.plane},{reprStr t.enc},{t.arg}")
+          let ds := s!"{if r == .full then "full" else "quick"},{o},{pf}"
+          IO.println s!"A {p.name} {fam} {name} d={ds} len={len} nblocks={blocksA.length} sameLen={blocksA.length == blocksB.length} nopanic={np} holes={",".intercalate (holes.map desc)} comp={"|".intercalate (holes.map comp)} targets={tgs} src={src.replace " " "~"}"
     return 0
   | "check" :: sf :: tf :: rest => do
     let rec opt (k : String) : List String → Option String
